@@ -241,7 +241,9 @@ func engTakeoverSched(seed int64, tier string, args []string, out *sx.Out) {
 	type sc struct {
 		expire, will, delay, clean bool
 		order                      int // 0 B completely, then A's teardown; 1 stale IsTakenOver check; 2 A's teardown while B is parked before willDelayed.Delete
-		sched                      []int
+		// 3 A has ended by its OWN normal DISCONNECT (stopped with that cause) and is parked at attach.readReturned; B completely; then A's clean-up
+		// 4 Compatibilities.PassiveClientDisconnect: the takeover does not stop A; B completely; then A's client closes and A's clean-up runs
+		sched []int
 	}
 	var scs []sc
 	if focus == "C14" {
@@ -251,6 +253,11 @@ func engTakeoverSched(seed int64, tier string, args []string, out *sx.Out) {
 			{true, false, false, false, 0, []int{1, 1, 1, 1, 1, 1, 0, 0, 0}},
 			{false, false, false, false, 0, []int{1, 1, 1, 1, 1, 1, 0, 0, 0}},
 			{true, true, false, false, 0, []int{1, 1, 1, 1, 1, 1, 0, 0, 0}},
+			{true, false, false, false, 3, []int{1, 1, 1, 1, 1, 1, 0, 0, 0}},
+			{true, false, false, true, 3, []int{1, 1, 1, 1, 1, 1, 0, 0, 0}},
+			{true, false, false, false, 4, []int{1, 1, 1, 1, 1, 1, 0, 0, 0}},
+			{true, false, false, true, 4, []int{1, 1, 1, 1, 1, 1, 0, 0, 0}},
+			{true, true, false, false, 4, []int{1, 1, 1, 1, 1, 1, 0, 0, 0}},
 		}
 	} else {
 		scs = []sc{
@@ -310,6 +317,21 @@ func engTakeoverSched(seed int64, tier string, args []string, out *sx.Out) {
 				h.b.Hung = false
 				ctl.release("attach.insideExpireBlock") // A: ClearInflights, UnsubscribeClient, Clients.Delete
 				h.settle()
+			case 3:
+				ctl.arm("attach.readReturned")
+				h.opDisconnect(a, 0, false, 0) // A's read loop returns (A stopped itself: cause = client DISCONNECT), parked before its clean-up
+				ok = ctl.waitParked("attach.readReturned")
+				h.b.Hung = false
+				b = h.opConnect(vb) // B: finds A still registered, takes the session over, Clients.Add, CONNACK
+				h.b.Hung = false
+				ctl.release("attach.readReturned") // A: the expire test (taken over: nothing to clean up)
+				h.settle()
+			case 4:
+				h.b.Srv.Options.Capabilities.Compatibilities.PassiveClientDisconnect = true
+				b = h.opConnect(vb) // A receives DISCONNECT 0x8E but is not stopped by the broker
+				h.settle()
+				h.opNetClose(a) // A's client closes: A stops with its own cause, its clean-up runs
+				h.settle()
 			case 2:
 				ctl.arm("attach.afterConnack")
 				b = h.opConnect(vb)
@@ -349,7 +371,7 @@ func engTakeoverSched(seed int64, tier string, args []string, out *sx.Out) {
 			ctl.done()
 			hung := h.b.Hung
 			h.b.Shutdown()
-			prm := sx.L{sx.Bool(s.expire), sx.Bool(s.will), sx.Bool(s.delay), sx.Bool(s.clean), sx.Bool(false)}
+			prm := sx.L{sx.Bool(s.expire), sx.Bool(s.will), sx.Bool(s.delay), sx.Bool(s.clean), sx.Bool(s.order == 3 || s.order == 4)}
 			if !ok || hung {
 				out.Case(sx.L{prm, nums(s.sched...), sx.L{sx.N(9), sx.Bool(false), sx.N(9)}})
 				continue
